@@ -1,7 +1,7 @@
 """C01 - Backup round trip is the identity on file trees."""
-from specs import snapshot, restore
+from specs import snapshot, restore, c01_lemmas
 
 LEVEL = 'proof'
-UNITS = [snapshot.chunk_done_unit('C01'), snapshot.stream_unit('C01'), snapshot.producer_unit('C01'), restore.write_part_unit('C01'), restore.plan_unit('C01')]
+UNITS = [snapshot.chunk_done_unit('C01'), snapshot.stream_unit('C01'), snapshot.producer_unit('C01'), restore.write_part_unit('C01'), restore.plan_unit('C01'), restore.write_ref_unit('C01'), snapshot.flatten_unit('C01'), c01_lemmas.lemmas('C01')]
 TRUSTED = []
 ASSUMPTIONS = []
